@@ -112,6 +112,11 @@ def run(prog, group, own, env=None, labels=None, max_steps=MAX_STEPS):
                 stack.append(B("lit:" + str(ins[1])))
             elif op == "arg":
                 stack.append(B("ARG%d" % ins[1]))
+            elif op in ("arg_0", "arg_1", "arg_2", "arg_3"):
+                stack.append(B("ARG" + op[-1]))
+            elif op == "app_global_get":
+                pop_bytes()
+                stack.append(0)
             elif op == "log":
                 pop_bytes()
             elif op == "intcblock":
